@@ -188,6 +188,7 @@ class Context:
         self.seed = seed
         self.tier = tier
         self.workers = {}
+        self.digest = 0
 
     def worker(self, name="enum"):
         if name not in self.workers:
@@ -195,7 +196,16 @@ class Context:
         return self.workers[name]
 
     def run(self, job, build="enum"):
-        return self.worker(build).run(job)
+        result = self.worker(build).run(job)
+        # determinism witness: everything the worker computed for this run, folded in execution order
+        self.digest = mix(self.digest, build, result.get("digest"))
+        return result
+
+    def begin_run(self):
+        self.digest = 0
+
+    def end_run(self):
+        return "%016x" % self.digest
 
     def close(self):
         for worker in self.workers.values():
@@ -260,7 +270,10 @@ def _shard_main(check_factory, binaries, seed, tier, indices, conn):
         check.prepare(ctx)
         for index in indices:
             try:
+                ctx.begin_run()
                 outcome = check.run_one(ctx, index)
+                outcome["digest"] = mix(ctx.end_run(), sorted(v["clause"] for v in outcome.get("violations", [])),
+                                        sorted(outcome.get("signatures", [])))
             except HarnessError:
                 raise
             except Exception:
